@@ -275,6 +275,18 @@ def handle (toks : List String) : String :=
     match r.toNat?, asp.toNat? with
     | some r, some asp => okN [((so3Res r asp).1 : Int), ((so3Res r asp).2 : Int)]
     | _, _ => "error:bad-op"
+  | ["so3resq", r, pn, qn] =>
+    -- aspect_ratio = pn / qn
+    match r.toNat?, pn.toNat?, qn.toNat? with
+    | some r, some pn, some qn =>
+      if qn = 0 then "error:bad-op" else okN [((so3ResQ r pn qn).1 : Int), ((so3ResQ r pn qn).2 : Int)]
+    | _, _, _ => "error:bad-op"
+  | ["so3qwq", r, pn, qn] =>
+    -- the qw buffer from the constructor arguments (resolution, aspect_ratio = pn / qn)
+    match r.toNat?, pn.toNat?, qn.toNat? with
+    | some r, some pn, some qn =>
+      if qn = 0 then "error:bad-op" else okF (Array.ofFn (n := 2 * r) fun b => so3QwOf r pn qn b.val)
+    | _, _, _ => "error:bad-op"
   | ["so3dim", l] =>
     match l.toNat? with
     | some l => okN [(so3Dim l : Int)]
